@@ -79,10 +79,10 @@ where
     | f + 1, l => l.take k :: go f (l.drop k)
 
 def refLL? : List Float → Option (PosObj Float × List Float)
-  | lat :: lon :: rest => some (⟨V3.zero, V3.zero, lat, lon⟩, rest)
+  | lat :: lon :: rest => some (⟨V3.zero, V3.zero, lat, lon, 0⟩, rest)
   | _ => none
 def refRV? : List Float → Option (PosObj Float × List Float)
-  | x :: y :: z :: vx :: vy :: vz :: rest => some (⟨⟨x, y, z⟩, ⟨vx, vy, vz⟩, 0, 0⟩, rest)
+  | x :: y :: z :: vx :: vy :: vz :: rest => some (⟨⟨x, y, z⟩, ⟨vx, vy, vz⟩, 0, 0, 0⟩, rest)
   | _ => none
 def v3? : List Float → Option (V3 Float)
   | [x, y, z] => some ⟨x, y, z⟩
@@ -102,8 +102,69 @@ def rowsCmd {β : Type} (width : Nat) (ref? : List Float → Option (PosObj Floa
   let out := conv (takeRows (rows.map (·.1)) idx) (takeRows (rows.map (·.2)) idx)
   pure (" ".intercalate (out.map render))
 
+/-- `rowsb KIND NREF NVAL data…`: NREF reference rows, then NVAL value rows, paired the way NumPy broadcasts them;
+`refused` when the shapes are not accepted -/
+def rowsBCmd {β : Type} (wref wval : Nat) (ref? : List Float → Option (PosObj Float × List Float)) (val? : List Float → Option β)
+    (conv : List (PosObj Float) → List β → Option (List β)) (render : β → String) (nref nval : Nat) (xs : List Float) :
+    Option String := do
+  if nref * wref + nval * wval != xs.length then none
+  let refs ← (chunk wref (xs.take (nref * wref))).mapM (fun r => (ref? r).map (·.1))
+  let vals ← (chunk wval (xs.drop (nref * wref))).mapM val?
+  match conv refs vals with
+  | some out => pure (" ".intercalate (out.map render))
+  | none => pure "refused"
+
+def angles? (kind : String) (xs : List Float) : Option (Angles Float) :=
+  match kind, xs with
+  | "s", [a] => some (.scalar a)
+  | "a", as => some (.array as)
+  | _, _ => none
+
 /-- commands through libm (`f` mode only) -/
 def handleF : List String → Option String
+  | "rowsb" :: kind :: nref :: nval :: rest => do
+    let nref ← nref.toNat?; let nval ← nval.toNat?
+    let xs ← parseAll? (α := Float) rest
+    match kind with
+    | "trs2enu" => rowsBCmd 2 3 refLL? v3? (rowsWithB deltaTrs2Enu) showV3 nref nval xs
+    | "enu2trs" => rowsBCmd 2 3 refLL? v3? (rowsWithB deltaEnu2Trs) showV3 nref nval xs
+    | "d6trs2enu" => rowsBCmd 2 6 refLL? v6? (rowsWithB deltaTrs2EnuPosVel) showV6 nref nval xs
+    | "trs2acr" => rowsBCmd 6 6 refRV? v6? (rowsWithB deltaTrs2Acr) showV6 nref nval xs
+    | "acr2trs" => rowsBCmd 6 6 refRV? v6? (rowsWithB deltaAcr2Trs) showV6 nref nval xs
+    | _ => none
+  | "rowsazelb" :: nobs :: ntgt :: rest => do
+    -- NOBS observers (lat lon px py pz), then NTGT targets (qx qy qz)
+    let nobs ← nobs.toNat?; let ntgt ← ntgt.toNat?
+    let xs ← parseAll? (α := Float) rest
+    if nobs * 5 + ntgt * 3 != xs.length then none
+    let obs ← (chunk 5 (xs.take (nobs * 5))).mapM (fun r => match r with
+      | [lat, lon, px, py, pz] => some (⟨⟨px, py, pz⟩, V3.zero, lat, lon, 0⟩ : PosObj Float)
+      | _ => none)
+    let tgt ← (chunk 3 (xs.drop (nobs * 5))).mapM (fun r => match r with
+      | [qx, qy, qz] => some (⟨⟨qx, qy, qz⟩, V3.zero, 0, 0, 0⟩ : PosObj Float)
+      | _ => none)
+    match rowsAzElZdB obs tgt with
+    | some out => pure (" ".intercalate (out.map (fun t => s!"{Wire.render t.1} {Wire.render t.2.1} {Wire.render t.2.2}")))
+    | none => pure "refused"
+  | "anglemats" :: which :: klat :: nlat :: klon :: rest => do
+    -- enu2trs / trs2enu for a scalar (`s`) or array (`a`) latitude and longitude
+    let nlat ← nlat.toNat?
+    let xs ← parseAll? (α := Float) rest
+    let lat ← angles? klat (xs.take nlat)
+    let lon ← angles? klon (xs.drop nlat)
+    let m ← match which with
+      | "enu2trs" => some (enu2trs (α := Float)) | "trs2enu" => some (trs2enu (α := Float)) | _ => none
+    match angleMatrices m lat lon with
+    | some out => pure (" ".intercalate (out.map showM3))
+    | none => pure "refused"
+  | "vecs" :: rest => do
+    -- vector / distance / direction of an observer given in trs (px py pz | qx qy qz) and in llh (lat lon h | lat lon h)
+    match ← parseAll? (α := Float) rest with
+    | [px, py, pz, qx, qy, qz, la, lo, h, la2, lo2, h2] =>
+      let o : PosObj Float := ⟨⟨px, py, pz⟩, V3.zero, la, lo, h⟩
+      let t : PosObj Float := ⟨⟨qx, qy, qz⟩, V3.zero, la2, lo2, h2⟩
+      pure s!"{showV3 (o.vectorTo t)} {Wire.render (o.distanceTo t)} {showV3 (o.direction t)} {showV3 (o.vectorToLlh t)} {Wire.render (o.distanceToLlh t)} {showV3 (o.directionLlh t)}"
+    | _ => none
   | "rows" :: kind :: k :: rest => do
     let k ← k.toNat?
     let idx ← (rest.take k).mapM String.toNat?
@@ -121,7 +182,7 @@ def handleF : List String → Option String
     let xs ← parseAll? (α := Float) rest
     let rows ← (chunk 8 xs).mapM (fun r => match r with
       | [lat, lon, px, py, pz, qx, qy, qz] =>
-        some ((⟨⟨px, py, pz⟩, V3.zero, lat, lon⟩ : PosObj Float), (⟨⟨qx, qy, qz⟩, V3.zero, 0, 0⟩ : PosObj Float))
+        some ((⟨⟨px, py, pz⟩, V3.zero, lat, lon, 0⟩ : PosObj Float), (⟨⟨qx, qy, qz⟩, V3.zero, 0, 0, 0⟩ : PosObj Float))
       | _ => none)
     if rows.length * 8 != xs.length then none
     let out := rowsAzElZd (rows.map (·.1)) (rows.map (·.2))
